@@ -288,6 +288,12 @@ def check_case(case, ev=None, scratch=None):
                     r = w2.call("eval", module="pk.m0", func="f", style="eval", opts={"dds_stages": ["analysis"], "dds_extra_debug": True})
                     if r["exc"] is not None:
                         raise Violation(f"{what}: {when}: analysis-only run in the second process raised {r['exc']['type']}: {r['exc']['msg'][:200]}", case)
+                    if "/out/v" in committed and cur["commit"] != "none":
+                        # ... and reads what the path serves before the first process keeps the new version
+                        r = w2.call("load", path="/out/v")
+                        if r["exc"] is not None or not same(r["value"], committed["/out/v"][1]):
+                            raise Violation(f"{what}: {when}: the second process loads {r['exc']['type'] if r['exc'] else short(r['value'])} before the re-keep, "
+                                            f"the path serves {short(committed['/out/v'][1])}", case)
                     start()
                     do_keep("f", ["/out/v"], when)
                     stats["rekeep"] += 1
